@@ -49,6 +49,46 @@ CLAIMED = {
             "Trusted: symx, z3, SymFile, list-based bytearray/bitarray stand-ins, serdes resource bounds (out-of-scope paths counted). "
             "Bound: symbolic regions of 1-5 bytes on 12 (quick) / 23 (thorough) fixtures.",
             "symbolic execution of the real (de)serialiser (symx) over symbolic byte regions, z3 byte equality per path", "3 C06"),
+    "C08": (MC,
+            "The real decoder (picture_decode wrapped to capture its transform data) and the real Deserialiser parse the same partly "
+            "symbolic stream inside one path; on every accepting path z3 proves, per coefficient, that dc_prediction(inverse_quant("
+            "deserialised value)) equals the decoder's transform data, and that picture numbers, transform and slice parameters and "
+            "data-unit codes agree; bits_left >= 0 whenever a decoder bounded block is read.",
+            "Trusted: symx, z3, the harness's placement of coefficients (uses the real slice_sizes functions), capture wrapper. Bound: "
+            "1 symbolic byte at 8 seeded positions per picture/fragment unit of 8 fixtures, 2-byte windows on 3 (quick); all bytes and "
+            "every third 2-byte window, 3-byte windows (thorough).",
+            "symbolic execution of both real parsers on the same symbolic bytes (symx), z3 equality per coefficient", "3 C08"),
+    "C09": (MC,
+            "(a) the real picture_decode on transforms holding arbitrary symbolic integers: every output sample proved within "
+            "[0, 2^depth-1], component shapes and pic_num checked, per (wavelet pair, depths, sizes, bit depths); (b) the real decoder on "
+            "assembled streams with symbolic 32-bit picture numbers: one callback per picture / completed fragmented picture with the "
+            "coded number; (c) picture_dimensions/video_depth with symbolic frame sizes and excursions.",
+            "Trusted: symx (symbolic-aware min/max), z3. Bound: components up to 5x4 quick / 8x6 thorough, depth sum <=2 / <=3.",
+            "symbolic execution of the real decoding functions (symx) + z3 Int", "3 C09"),
+    "C17": (EX,
+            "Solver-enumerated selectors drive every operation sequence / table / CSV text of the bound through the real ValueSet, "
+            "constraint-table query functions and CSV reader; results compared with a Python-set model. Exhaustive within the bound; "
+            "the solver contributes enumeration, not abstraction (values reach hash-keyed containers).",
+            "Trusted: the set model in checks/c17.py. Bound: domain 0..4/0..5, <=3/<=4 operations, 2-3 table columns, 2x2..2x3 CSV cells.",
+            "selector-symbolic bounded exhaustive exploration of the real code (symx) vs set model", "3 C17"),
+    "C18": (EX,
+            "Every syntax tree up to 5 (quick) / 6 (thorough) nodes over {a, b, .} (rendered and parsed by the real parser, also with a "
+            "trailing $) and the repository's level / test-case patterns, against every symbol sequence up to length 4/5 chosen by "
+            "solver-enumerated selectors; match_symbol, is_complete and valid_next_symbols compared with a Brzozowski-derivative reference.",
+            "Trusted: lib/regex_ref.py. Exhaustive within the bound; selector-symbolic (symbols are dictionary keys).",
+            "selector-symbolic bounded exhaustive exploration of the real matcher (symx) vs derivative reference", "3 C18"),
+    "C19": (EX,
+            "make_matching_sequence on every required list (<=2/<=3 symbols), pattern set (catalogue trees, seeded pairs, two-branch "
+            "alternations, real level x test-case patterns) and depth limit of the bound, against a breadth-first reference over "
+            "derivative tuples: supersequence, matches all, shortest, impossibility only when none exists. The known greedy-search "
+            "defect is recognised by an executable characterisation (a greedy reference) and reported as KNOWN-FINDING.",
+            "Trusted: lib/regex_ref.py. Exhaustive within the bound; selector-symbolic.",
+            "selector-symbolic bounded exhaustive exploration of the real search (symx) vs BFS reference", "3 C19"),
+    "C27": (EX,
+            "Every history of up to 3/4 operations (18 operation instances incl. |=, |, update variants, setdefault, copy, pickle, delete, "
+            "declared and undeclared keys) after 4 constructor variants on 6 library fixeddict types, against a plain-dict model.",
+            "Trusted: the model in checks/c27.py. Exhaustive within the bound; selector-symbolic.",
+            "selector-symbolic bounded exhaustive exploration of the real classes (symx) vs dict model", "3 C27"),
     "C20": (MC,
             "Symbolic execution of the real BitstreamReader/BitstreamWriter and of the decoder's read_* functions on the same buffer of "
             "symbolic bits: per path (one per exp-Golomb length class / end-of-file point / block length) z3 proves equal values, equal tell(), "
